@@ -96,6 +96,15 @@ def install(repo):
     _FINDER = _Finder(repo)
     sys.meta_path.insert(0, _FINDER)
     _purge()
+    # compile (not execute) every module now, so that forked children inherit the code objects
+    for fn in sorted(os.listdir(_FINDER.pkgdir)):
+        if fn.endswith(".py") and fn != "_ast_gen.py":
+            path = os.path.join(_FINDER.pkgdir, fn)
+            try:
+                with open(path, encoding="utf-8") as f:
+                    _FINDER.codes[path] = compile(f.read(), path, "exec", dont_inherit=True)
+            except SyntaxError:
+                pass  # reported when the module is actually imported
 
 
 def _purge():
